@@ -91,6 +91,7 @@ def run(ctx):
     sorted_rule(ctx, syn)
     row_rule(ctx, syn)
     compress_rule(ctx, syn)
+    guard_rule(ctx, syn)
 
     r_own = ctx.rule("C01.OWN", "index, id-map, store and position-index fields are written only by their sanctioned writers")
     n = own_rule(ctx, prog, r_own)
@@ -674,6 +675,32 @@ def row_rule(ctx, syn):
             return ()
         return NotImplemented
     hooks["retain"] = retain
+
+    def binary_search(ev, recv, args, node, env):
+        # the real algorithm (not a linear scan): on an unsorted row it misses, as the real one does
+        if not isinstance(recv, list):
+            return NotImplemented
+        from formula import ok, err
+        x = args[0]
+        lo, hi = 0, len(recv)
+        while lo < hi:
+            mid = (lo + hi) // 2
+            if recv[mid] == x:
+                return ok(mid)
+            if recv[mid] < x:
+                lo = mid + 1
+            else:
+                hi = mid
+        return err(lo)
+    hooks["binary_search"] = binary_search
+
+    def map_or(ev, recv, args, node, env):
+        if recv is None:
+            return args[0]
+        if is_some(recv) and isinstance(args[1], tuple) and args[1][0] == "closure":
+            return closure_call(ev, args[1], [recv[1]], env)
+        return NotImplemented
+    hooks["map_or"] = map_or
     n = 0
     for ty, mk in (("RelationMap", lambda: []), ("RelationBTreeMap", lambda: {})):
         ins = [f for f in syn.fns if f.name == "insert" and f.file == "src/store.rs" and (f.self_ty or "").startswith(ty + "<") and f.trait is None]
@@ -702,6 +729,18 @@ def row_rule(ctx, syn):
             r.hit("%s:insert" % ty, sample={"map": ty, "inserted": [1, 3, 3, 4, 7, 7, 7, 9], "row": got})
             if got != [1, 3, 4, 7, 9]:
                 ctx.report(r, "%s:insert" % ty, "%s::insert of the handles 1,3,3,4,7,7,7,9 (an annotation naming the same item through several sub-selectors repeats its own handle) leaves the row %s; each referrer must be listed once, in handle order" % (ty, got), ins.file, ins.line)
+            # an older referrer that starts to refer to the item later on (validation data added to existing annotations)
+            for y in (5, 2, 5, 0, 9):
+                do(ins, m, 2, y)
+            got = row(m, 2)
+            n += 1
+            r.hit("%s:insert-older" % ty, sample={"map": ty, "then_inserted": [5, 2, 5, 0, 9], "row": got})
+            if got != [0, 1, 2, 3, 4, 5, 7, 9]:
+                ctx.report(r, "%s:insert-older" % ty, "%s::insert of the older handles 5,2,5,0 (and 9 again) into the row [1,3,4,7,9] leaves %s; the row is handed out as a sorted, duplicate-free collection (chronological order) and must be [0,1,2,3,4,5,7,9]" % (ty, got), ins.file, ins.line)
+            for y in (0, 2, 5):
+                do(rem, m, 2, y)
+            if row(m, 2) != [1, 3, 4, 7, 9]:
+                ctx.report(r, "%s:remove" % ty, "%s::remove of 0, 2, 5 leaves the row %s, expected [1, 3, 4, 7, 9]" % (ty, row(m, 2)), rem.file, rem.line)
             for victim, want in ((3, [1, 4, 7, 9]), (1, [4, 7, 9]), (5, [4, 7, 9]), (9, [4, 7])):
                 do(rem, m, 2, victim)
                 got = row(m, 2)
@@ -714,7 +753,7 @@ def row_rule(ctx, syn):
             n += 1
         except (Unknown, Panic) as e:
             ctx.report(r, "%s:unevaluated" % ty, "%s::insert/remove could not be evaluated (%s): the row discipline is not established" % (ty, e), ins.file, ins.line)
-    ctx.floor(r, n, 12, "row operations evaluated")
+    ctx.floor(r, n, 14, "row operations evaluated")
 
 
 # ---------------------------------------------------------------------- COMPRESS
@@ -824,3 +863,68 @@ def compress_rule(ctx, syn):
 def SInt_(v):
     from formula import SInt
     return SInt(v)
+
+
+# ---------------------------------------------------------------------- GUARD
+def guard_rule(ctx, syn):
+    """protect_text() attaches data to annotations that exist already and writes the reverse index by hand.  The pairing
+    is read off the code: a queue is drained into insert_data(.., KEY, ..) + add_data + index insert; what is put on that
+    queue must be annotations that do not carry data under KEY yet, i.e. the push is guarded by X().is_none() where X
+    looks the annotation's data up under the same KEY literal."""
+    from synq import unparse, children, str_lits
+    r = ctx.rule("C01.GUARD", "data attached to existing annotations by hand (protect_text) is attached only to annotations that do not carry data under that key yet: the queue drained into insert_data(.., KEY, ..) is filled under a guard that looks up the same KEY")
+    fs = [f for f in syn.fns if f.name == "protect_text" and (f.self_ty or "") == "AnnotationStore"]
+    if len(fs) != 1:
+        ctx.anchor_missing(r, "AnnotationStore::protect_text")
+        return
+    fn = fs[0]
+    ctx.functions_analysed.add(fn.qual)
+    drains = {}  # queue -> KEY
+    for lp in walk(fn.body):
+        if lp.get("k") != "for":
+            continue
+        q = strip(lp["iter"])
+        if q.get("k") != "path" or len(q["path"]) != 1:
+            continue
+        keys = [c for c in walk(lp["body"]) if c.get("k") == "mcall" and c["method"] == "insert_data"]
+        manual = [c for c in walk(lp["body"]) if c.get("k") == "mcall" and c["method"] in ("add_data",)]
+        if keys and manual:
+            k_ = strip(keys[0]["args"][1]) if len(keys[0]["args"]) > 1 else None
+            if k_ is None or k_.get("k") != "lit" or k_.get("t") != "str":
+                ctx.report(r, "key-not-literal:" + q["path"][0], "protect_text drains %s into insert_data with a key that is not a literal: the guard pairing cannot be established" % q["path"][0], fn.file, lp["l"])
+                continue
+            drains[q["path"][0]] = k_["v"]
+    ctx.floor(r, len(drains), 2, "queues drained into insert_data + add_data")
+    lookups = {}
+    for f in syn.fns:
+        if f.file == fn.file and f.body and f.name.startswith("validation_"):
+            lookups[f.name] = set(str_lits(f.body))
+
+    def visit(node, conds):
+        k = node.get("k") if isinstance(node, dict) else None
+        if k == "closure":
+            return
+        if k == "if":
+            visit(node["cond"], conds)
+            visit(node["then"], conds + [node["cond"]])
+            if node.get("else"):
+                visit(node["else"], conds)
+            return
+        if k == "mcall" and node["method"] == "push":
+            q = strip(node["recv"])
+            if q.get("k") == "path" and len(q["path"]) == 1 and q["path"][0] in drains:
+                qn, key = q["path"][0], drains[q["path"][0]]
+                guards = []
+                for c in conds:
+                    for m in walk(c):
+                        if m.get("k") == "mcall" and m["method"] == "is_none" and strip(m["recv"]).get("k") == "mcall":
+                            guards.append(strip(m["recv"])["method"])
+                r.hit(qn, sample={"queue": qn, "key": key, "guards": guards})
+                good = [g for g in guards if key in lookups.get(g, ())]
+                if not good:
+                    ctx.report(r, "unguarded:" + key, "protect_text queues an annotation for new \"%s\" data under the guard %s, none of which looks up \"%s\" data of that annotation: an annotation that already carries it gets the same data item attached again (its data and the index row list it twice)" % (key, guards or "(none)", key), fn.file, node["l"])
+        for c in children(node):
+            visit(c, conds)
+    visit(fn.body, [])
+    if r.instances < len(drains):
+        ctx.report(r, "no-push", "a queue drained by protect_text is never filled in its own body: the guard pairing cannot be established", fn.file, fn.line)
